@@ -160,6 +160,11 @@ def run_atomic(res, work, tier, seed):
         [[["snap"]], [["upd", 1]]],
         [[["unlocked"], ["snap"]], [["upd", 2], ["upd", 3]]],
         [[["unlocked"], ["unlocked"]], [["bad", 4]], [["try", 5]]],
+        # valid updates after a writer died on a mismatched pair: what the dead writer tried to store must not count
+        [[["upd", 1], ["bad", 9], ["upd", 5]], [["snap"], ["snap"]]],
+        [[["bad", 9], ["upd", 3]], [["snap"]]],
+        [[["upd", 2], ["bad", 8]], [["upd", 4], ["upd", 6]], [["snap"], ["snap"]]],
+        [[["bad", 7], ["try", 3], ["try", 4], ["snap"]]],
     ]
     n_rand = 4000 if tier == "quick" else 60000
     for i in range(n_rand):
